@@ -46,10 +46,15 @@ def steps(chk, tier, exe, d):
     per = 300 if tier == "quick" else 6000
     scratch = os.path.join(d, "gs"); os.makedirs(scratch)
     recs = os.path.join(d, "grid.ndjson")
-    p = vlib.sh([exe, "grid", str(vlib.seed()), str(per), recs, scratch], check=True, timeout=3000)
-    info = json.loads(p.stdout.decode().strip().splitlines()[-1])
-    if info["dirty"] != 0:
-        raise vlib.MachineryError("grid harness left memory dirty")
+    p = vlib.sh([exe, "grid", str(vlib.seed()), str(per), recs, scratch], timeout=3000)
+    if p.returncode == 4:
+        pass        # hexsim crashed inside a step: the case is the last record (x = 2); TLC decides whether the ISA defines it
+    elif p.returncode != 0:
+        raise vlib.MachineryError("isa_step grid failed (%d): %s" % (p.returncode, p.stderr.decode(errors="replace")[-500:]))
+    else:
+        info = json.loads(p.stdout.decode().strip().splitlines()[-1])
+        if info["dirty"] != 0:
+            raise vlib.MachineryError("grid harness left memory dirty")
     lines = open(recs).read().splitlines()
     # canary: corrupt the post-state of the first executed record and append it
     good = next(l for l in lines if '"x":1' in l and '"st":"run"' in l)
@@ -87,7 +92,7 @@ def steps(chk, tier, exe, d):
              "SVC-exit", "SVC-write", "SVC-read"]
     chk.set("step_ok_by_instruction", dict(zip(names, byop)))
     missing = [n for n, v in zip(names, byop) if v == 0 and n != "0xC"]
-    chk.vacuity(missing, "no defined step validated for %s" % missing)
+    chk.vacuity(missing and p.returncode == 0, "no defined step validated for %s" % missing)
     if tot["refused"] > 0.02 * tot["n"]:
         raise vlib.MachineryError("recorder refused %d defined steps" % tot["refused"])
     chk.sample({"step_record": json.loads(lines[5])})
